@@ -12,7 +12,7 @@ import traceback
 VERIF = os.path.dirname(os.path.dirname(os.path.abspath(__file__)))
 sys.path.insert(0, VERIF)
 
-CONTRACT_MODULES = ['c_util', 'c_codec_dec', 'c_codec_dec2', 'c_codec_enc', 'c_brokerclient', 'c_consumer', 'c_producer', 'c_client']
+CONTRACT_MODULES = ['c_util', 'c_codec_dec', 'c_codec_dec2', 'c_codec_enc', 'c_brokerclient', 'c_consumer', 'c_producer', 'c_client', 'c_group']
 
 _ENG = None
 
